@@ -145,6 +145,10 @@ class Renderer(object):
                 return "(not %s)" % a[0]
             if o == "tobi":
                 return "(%s::BI)" % a[0]
+            if o in ("and", "or") and ty == "si":
+                return "(%s %s %s)" % (a[0], "/\\" if o == "and" else "\\/", a[1])
+            if o == "xor":
+                return "xor(%s, %s)" % (a[0], a[1])
             if o == "cat":
                 return "concat(%s, %s)" % (a[0], a[1])
             if o == "len":
